@@ -9,6 +9,8 @@ use std::{
 };
 
 thread_local! {
+    /// set while the main thread itself runs subject code under catch_unwind
+    pub static QUIET_MAIN: Cell<bool> = const { Cell::new(false) };
     static PARKS: Cell<u64> = const { Cell::new(0) };
     static PARK_WAKER: RefCell<Option<Waker>> = const { RefCell::new(None) };
     static PANICS: RefCell<Vec<String>> = const { RefCell::new(Vec::new()) };
@@ -80,6 +82,9 @@ impl Future for StepOne {
 pub fn install_panic_hook() {
     std::panic::set_hook(Box::new(|info| {
         let msg = format!("{}", info);
+        if std::thread::current().name() == Some("main") && !QUIET_MAIN.with(|q| q.get()) {
+            eprintln!("[main thread] {}", msg);
+        }
         PANICS.with(|p| p.borrow_mut().push(msg));
     }));
 }
